@@ -504,8 +504,14 @@ class IPRoutePrefix(EVPN):
         value_hex += cls.construct_rd(value['rd'])
         value_hex += b'\x00\x00' + struct.pack('!d', value['esi'])
         value_hex += struct.pack('!I', value['eth_tag_id'])
-        value_hex += struct.pack('!B', int(value['prefix'].split('/')[1]))
-        value_hex += netaddr.IPAddress(value['prefix'].split('/')[0]).packed
-        value_hex += netaddr.IPAddress(value['gateway']).packed
+        # IP prefix and gateway address are both 4 or both 16 octets (RFC 9136 section 3.1)
+        prefix = netaddr.IPNetwork(value['prefix'])
+        gateway = netaddr.IPAddress(value['gateway'], prefix.version)
+        value_hex += struct.pack('!B', prefix.prefixlen)
+        value_hex += prefix.ip.packed
+        value_hex += gateway.packed
+        if len(value['label']) != 1:
+            # the route is 34 or 58 octets long; that length is what tells IPv4 from IPv6
+            raise ValueError('an IP prefix route carries exactly one MPLS label')
         value_hex += cls.construct_mpls_label_stack(value['label'])
         return value_hex
